@@ -55,7 +55,7 @@ def step_kind(st):
 async def execute(net, hyg, plan):
     prefixes = ["", "/by"] if plan.get("bystander") else [""]
     w = W.World(net, tree=corpus_tree(prefixes), users=corpus_users, backend=plan.get("backend", "memory"),
-                block_size=plan.get("block_size", 8192))
+                block_size=plan.get("block_size", 8192), **(plan.get("server_kwargs") or {}))
     await w.start()
     try:
         script = corpus("")[plan["script"]]
@@ -364,6 +364,12 @@ def gen_cases(tier, seed):
     from ..spyfs import OPS
     for name in names:
         cases.append({"kind": "enum_ops", "ops": list(OPS), "plan": {"script": name, "exc": "eio", "seed": seed}})
+    # time-outs configured, and a download larger than every buffer on the way: the failure comes while the data connection
+    # still holds unsent bytes
+    for name in ("retr_huge", "two_transfers") if tier == "quick" else ("retr_huge", "two_transfers", "list", "mlsd", "retr_rest"):
+        for kw in ({"socket_timeout": 10},) if tier == "quick" else ({"socket_timeout": 10}, {"socket_timeout": 3, "idle_timeout": 20}):
+            cases.append({"kind": "enum_k", "stride": 7 if tier == "quick" and name == "retr_huge" else 1,
+                          "plan": {"script": name, "exc": "eio", "seed": seed, "server_kwargs": kw}})
     # with a bystander on another prefix
     pairs = [("retr_pasv", "stor_pasv"), ("mlsd", "retr_pasv"), ("stor_pasv", "list")]
     if tier == "thorough":
